@@ -71,12 +71,122 @@ theorem fixed_names_safe :
     (∀ d ∈ Generated.C19.listPages, safeRel d = true) ∧ (∀ d ∈ Generated.C19.fixedNames, safeRel d = true) :=
   tables_safe
 
+/-- **Symbolic links inside copied trees are dereferenced.** For every tree that FORD copies
+    verbatim (`media_dir`, a page's `copy_subdir` directory, its own css/js/fonts) and *every* table
+    of symbolic links among its entries - pointing inside the tree, elsewhere in the project or
+    anywhere on disk, existing or dangling - the attempts of the copy (including FORD's `touch` pass
+    over the result) are the same as for the link-free tree: where the links point is irrelevant.
+    Rests on the generated constant `copytreeSymlinks` (the `symlinks=` argument of the
+    `shutil.copytree` call in `ford.output.copytree`): keeping links as links breaks this proof. -/
+theorem copy_dereferences_links (dst : Path) (t : Tree) (l : List (Str × Path)) :
+    copyTree dst { t with links := l } = copyTree dst t := by
+  rw [copyTree_eq_deref, copyTree_eq_deref]
+  rfl
+
+/-- ... and the copy never creates a symbolic link, so the output directory (wiped at the start of
+    the run) holds regular files and directories only and `Path.touch()` cannot be redirected. -/
+theorem copy_creates_no_link (dst : Path) (t : Tree) : ∀ p ∈ copyTree dst t, p.kind ≠ .symlink := by
+  intro p hp
+  rw [copyTree_eq_deref] at hp
+  simp only [copyTreeDeref, List.mem_cons, List.mem_append] at hp
+  rcases hp with ((rfl | h) | h) | h
+  · simp
+  · obtain ⟨e, _, _, hk⟩ := mem_walkOps dst t.walk p h
+    rcases hk with ⟨_, hk | hk⟩ | ⟨_, hk⟩ | ⟨_, hk | hk⟩ <;> simp [hk]
+  · simp at h; rcases h with rfl | rfl <;> simp
+  · split at h
+    · cases h
+    · obtain ⟨r, _, rfl⟩ := List.mem_map.1 h
+      simp
+
+/-- **Why links must be dereferenced.** Had the copy kept links as links (`copyTreeKeep`, the
+    behaviour of `symlinks=True`), a tree `{a -> /v/f, b -> /v/gone (dangling)}` copied to `/o/media`
+    would make the `touch` pass set the times of `/v/f` and create `/v/gone`, both outside `/o`. -/
+theorem kept_links_escape_witness :
+    let t : Tree := ⟨[(0, ['a']), (3, ['b'])], [['a']], [(['a'], [['v'], ['f']]), (['b'], [['v'], ['g', 'o', 'n', 'e']])]⟩
+    (⟨.utime, [['v'], ['f']]⟩ ∈ copyTreeKeep [['o'], ['m', 'e', 'd', 'i', 'a']] t) ∧
+    (⟨.wr, [['v'], ['g', 'o', 'n', 'e']]⟩ ∈ copyTreeKeep [['o'], ['m', 'e', 'd', 'i', 'a']] t) ∧
+    (∀ p ∈ copyTreeDeref [['o'], ['m', 'e', 'd', 'i', 'a']] t, [['o']] <+: p.path) := by
+  decide
+
+/-- **FORD only touches what it has just created.** In a copy (coherent listing, `treeWf`), every
+    `utime` attempt - `copystat` on the directories and the `touch` pass over `rglob("*")` - targets
+    the destination directory itself or a path for which the same copy made an `open`-for-write or
+    `mkdir` attempt. Nothing that existed before the copy is touched. -/
+theorem touch_only_own_copies (dst : Path) (t : Tree) (hwf : treeWf t = true) :
+    ∀ p ∈ copyTree dst t, p.kind = .utime →
+      p.path = dst ∨ ∃ q ∈ copyTree dst t, (q.kind = .wr ∨ q.kind = .mk) ∧ q.path = p.path := by
+  intro p hp hk
+  simp only [treeWf, Bool.and_eq_true, List.all_eq_true, Bool.or_eq_true, List.contains_iff_mem,
+    bne_iff_ne, ne_eq] at hwf
+  obtain ⟨hT, hW⟩ := hwf
+  rw [copyTree_eq_deref] at hp ⊢
+  have hsub : ∀ q ∈ walkOps dst t.walk, q ∈ copyTreeDeref dst t := by
+    intro q hq; simp [copyTreeDeref, hq]
+  have hrel : ∀ rel, (0, rel) ∈ t.walk ∨ (1, rel) ∈ t.walk →
+      ∃ q ∈ copyTreeDeref dst t, (q.kind = .wr ∨ q.kind = .mk) ∧ q.path = sub dst rel := by
+    rintro rel (h | h)
+    · exact ⟨_, hsub _ (walkOps_file dst t.walk rel h), Or.inl rfl, rfl⟩
+    · exact ⟨_, hsub _ (walkOps_dir dst t.walk rel h), Or.inr rfl, rfl⟩
+  simp only [copyTreeDeref, List.mem_cons, List.mem_append] at hp
+  rcases hp with ((rfl | h) | h) | h
+  · cases hk
+  · obtain ⟨e, he, hpath, hkind⟩ := mem_walkOps dst t.walk p h
+    rcases hkind with ⟨_, h' | h'⟩ | ⟨_, h'⟩ | ⟨h2, _⟩
+    · rw [hk] at h'; cases h'
+    · rw [hk] at h'; cases h'
+    · rw [hk] at h'; cases h'
+    · right
+      rw [hpath]
+      rcases hW e he with h' | h'
+      · exact absurd h2 h'
+      · exact hrel _ (Or.inr h')
+  · simp at h
+    rcases h with rfl | rfl
+    · exact Or.inl rfl
+    · cases hk
+  · split at h
+    · cases h
+    · obtain ⟨r, hr, rfl⟩ := List.mem_map.1 h
+      exact Or.inr (hrel r (hT r hr))
+
+/-- **The containment guard of page-level `copy_subdir`** (`self.out_dir in target.parents`, with
+    `parents` as pathlib defines it) accepts a target exactly when it lies strictly below the output
+    directory *component by component*. -/
+theorem guard_iff_strictly_below (o dst : Path) :
+    guardAccepts o dst = true ↔ o <+: dst ∧ o ≠ dst := by
+  simp [guardAccepts, mem_parents_iff_proper]
+
+/-- With the guard, *whatever* the `copy_subdir` item is - absolute, any number of `..`, a name
+    that merely resembles the output directory's (`doc` / `docs`, `doc-assets`, `doc.old`), the
+    output directory itself or an ancestor - every attempt of the copy lies below the output
+    directory; items the guard rejects cause no attempt at all. -/
+theorem guarded_copy_below (c : Cfg) (o : Path) (to : List Seg) (created : List Path) (pc : PCopy)
+    (hv : c.repaired = true) (ht : ∀ t, pc.tree = some t → (∀ e ∈ t.walk, safeRel e.2 = true) ∧ ∀ e ∈ t.touch, safeRel e = true) :
+    (∀ p ∈ pcopyOps c o to created pc, o <+: p.path) ∧
+    (guardAccepts o (norm (joinRaw to pc.item)) = false → pcopyOps c o to created pc = []) := by
+  refine ⟨pcopyOps_under c o to created pc (Or.inl hv) ht, ?_⟩
+  intro hg
+  simp [pcopyOps, hv, hg]
+
+/-- **Why the guard must compare components.** The textual test
+    `str(target).startswith(str(out_dir))` accepts the sibling `/p/docs` (and `/p/doc-assets`) of
+    the output directory `/p/doc`, which the guard rejects and which is not below it. -/
+theorem string_prefix_guard_unsound_witness :
+    let o : Path := [['p'], ['d', 'o', 'c']]
+    let d1 : Path := [['p'], ['d', 'o', 'c', 's'], ['x']]
+    let d2 : Path := [['p'], ['d', 'o', 'c', '-', 'a', 's', 's', 'e', 't', 's']]
+    strPrefixGuard o d1 = true ∧ guardAccepts o d1 = false ∧ ¬ o <+: d1 ∧
+    strPrefixGuard o d2 = true ∧ guardAccepts o d2 = false ∧ ¬ o <+: d2 := by
+  decide
+
 /-- **Confinement (repaired variant).** For all placements of `output_dir` and
     `graph_dir`, all option combinations (graph, search, media_dir, css, favicon,
     incl_src, mathjax_config, page_dir with copy_subdir, externalize), all projects
     and page trees of any size: every file-system attempt of the run targets the
     output directory or the graph directory (or creates a missing ancestor of them).
-    Side conditions: names that come from directory listings do not climb (`SiteOk`). -/
+    Side conditions: names that come from directory listings do not climb (`SiteOk`); the copied
+    trees may contain symbolic links to anywhere (`Tree.links` is unconstrained). -/
 theorem confined (c : Cfg) (s : Site) (hl : LinksOk c.links) (hs : SiteOk s) (hv : c.repaired = true) :
     ∀ p ∈ run c s, Allowed (outDir c) (graphDir c) p := by
   intro p hp
@@ -102,7 +212,7 @@ theorem confined_partial (c : Cfg) (s : Site) (hl : LinksOk c.links) (hs : SiteO
 theorem copy_subdir_escape_witness :
     let c : Cfg := { dir := ["p".toList], out := "doc".toList }
     let s : Site := { pages := [{ loc := ".".toList, stem := "index".toList, files := [],
-                                  copies := [{ item := "../../x".toList, tree := some ⟨[(0, "a".toList)], ["a".toList]⟩ }] }] }
+                                  copies := [{ item := "../../x".toList, tree := some ⟨[(0, "a".toList)], ["a".toList], []⟩ }] }] }
     noEscape s = false ∧ (∃ p ∈ run c s, ¬ Allowed (outDir c) (graphDir c) p) ∧
     (run { c with repaired := true } s).all (fun p => (outDir c).isPrefixOf p.path) = true := by
   intro c s
@@ -168,6 +278,10 @@ theorem sources_untouched (c : Cfg) (s : Site) (hl : LinksOk c.links) (hs : Site
     rw [refusal_no_ops c s ⟨d, hd, h⟩] at hp
     cases hp
   exact inputs_read_only c s hl hs hv d hne hg p hp
+
+/-- non-vacuity: a listing with a link to a directory outside and a dangling link is coherent -/
+example : treeWf ⟨[(0, ['a']), (1, ['d']), (0, ['d', '/', 'x']), (2, ['d']), (3, ['g'])], [['a'], ['d'], ['d', '/', 'x']],
+    [(['d'], [['v'], ['i']]), (['g'], [['v'], ['g']])]⟩ = true := by decide
 
 /-- non-vacuity: the shipped example `copy_subdir: ../images` is not in the defect class,
     a deeper climb is -/
